@@ -52,13 +52,26 @@ fn sizes() -> Vec<u64> {
             }
         }
     }
+    // sizes whose remainder modulo the unit is a single power of two, and its complement: k*u + 2^e
+    // and k*u - 2^e for every e below log2(u) - a remainder with all its low bits clear (a multiple
+    // of 64 MiB that is not a multiple of 1 GiB) must still round up
+    for u in [512u64, 1 << 10, 1 << 20, 1 << 30] {
+        for k in [1u64, 2] {
+            let mut p = 1u64;
+            while p < u {
+                v.push(k * u + p);
+                v.push(k * u - p);
+                p <<= 1;
+            }
+        }
+    }
     v.sort();
     v.dedup();
     v
 }
 
 fn ensure_dir() {
-    if std::fs::symlink_metadata("s/.ready").is_ok() {
+    if std::fs::symlink_metadata("s/.ready2").is_ok() {
         return;
     }
     let _ = std::fs::remove_dir_all("s");
@@ -102,7 +115,7 @@ fn ensure_dir() {
         n.atime = Some((NOW_S as i64 + ahead, 500));
         t.nodes.push(n);
     }
-    t.nodes.push(Node::new("s/.ready", Kind::File));
+    t.nodes.push(Node::new("s/.ready2", Kind::File));
     t.build();
 }
 
